@@ -32,9 +32,10 @@ vars == <<docOf, pc, ctx, cache, globals, out, sched, lazy, fresh>>
 
 R == 1..NRenders
 Phases == <<"parse", "layout", "draw">>
-G0 == [ua |-> "ua-sheet", initial |-> "initial-values"]
+\* (user: the user style sheet, parsed once by the caller and handed to every render)
+G0 == [ua |-> "ua-sheet", user |-> "user-sheet", initial |-> "initial-values"]
 \* what a phase computes from the document and the global tables
-Compute(ph, d, g) == <<ph, d, g.ua>> \o (IF ph = "layout" THEN <<"dictionary">> ELSE <<>>)
+Compute(ph, d, g) == <<ph, d, g.ua, g.user>> \o (IF ph = "layout" THEN <<"dictionary">> ELSE <<>>)
 Loaded(l) == IF l = "unset" THEN "dictionary" ELSE l
 \* the output of a lone render of document d
 Ref(d) == <<Compute("parse", d, G0), Compute("layout", d, G0), Compute("draw", d, G0)>>
